@@ -27,7 +27,7 @@ P = {
  "C12": ("CheckAndMutateRow: predicate evaluated on a deep-fresh copy, without a filter PredicateMatched == row has a cell, exactly req.TrueMutations / req.FalseMutations as selected is passed to applyMutations together with the unfiltered row, errors commit nothing (commit counter), updateRow only after a nil applyMutations", "6 C12, 10"),
  "C13": ("ReadModifyWriteRow per rule (call-site assertions): unknown family rejected before any change, increment on a non-8-byte value rejected, new cell timestamp == max(clock truncated to ms, newest timestamp of that column), append concatenates to the newest value, increment is 64-bit wrapping arithmetic on the decoded newest value (stated at the encoder's argument), one commit after all rules, none on error", "6 C13, 10"),
  "C14": ("Registry semantics of CreateTable/DeleteTable/GetTable/ListTables (AlreadyExists/NotFound, exact key set, nothing else changes), ModifyColumnFamilies all-or-nothing with the exact per-family effect and persistence of the fully validated batch, DropRowRange (only keys with the prefix are deleted, Clear only for delete-all, schema untouched), responses are private copies, lock discipline", "6 C14, 10"),
- "C15": ("finishCompose (more than 32 sources and only that is answered 'too many sources', missing/nil source and destination, per-source preconditions before the single Add, validated protocol), handleGcsCopy path splitting in bounds for every input, destination object names may contain \"/o/\", destination key locked; copy store contracts; destination names containing \"/compose\" are an open known finding", "6 C15, 10"),
+ "C15": ("finishCompose (more than 32 sources and only that is answered 'too many sources', missing/nil source and destination, per-source preconditions before the single Add, validated protocol; content: exactly one Store.Get per source in request order, the bytes given to the single Store.Add are the concatenation in call order of what those Gets returned, appended into a buffer the function owns), handleGcsCopy path splitting in bounds for every input, destination object names may contain \"/o/\", destination key locked; copy store contracts; destination names containing \"/compose\" are an open known finding", "6 C15, 10"),
  "C16": ("applyGC proved for all rules/cells/clock values (result is a prefix, MaxNumVersions exact count, MaxAge boundary, Union/Intersection), table.gc callback: families without a rule untouched, changed flag true iff some column lost cells, a changed row and only a changed row is handed to updateRow, lock reversal balanced, quiescence guard; the stale-snapshot write-back after the lock reversal is an open known finding", "6 C16, 10"),
  "C17": ("btreeRows and leveldbRows methods each verified against the same Rows interface contract (behavioural subtyping) over assumed btree/leveldb/protobuf contracts: Get returns nil or a deep-fresh well-formed row with that key, scans deliver such rows and stop on false, range bounds of the library scan equal the requested bounds; panics on library errors are listed as not claimed (environment failures)", "6 C17, 10"),
  "C19": ("Safety kernel only: countedLock.Lock/Unlock verified against an assumed one-slot channel protocol (send enabled iff slot empty, receive iff full; a false Lock leaves the slot unchanged and implies the context ended), TransientLockMap Lock/Unlock/Run/returnLockObj: refcount and map-entry bookkeeping under l.mu (guarded_by incl. the foreign lock), entries present iff referenced, Unlock panics iff the key is not held; deadlock freedom and lost wake-ups are not decided", "6 C19, 7.2, 10"),
